@@ -438,7 +438,9 @@ def findD (fuel : Nat) (root : Val) (sp : Pos) (ps entry : Bool) (toks : List St
     | .none => .error .ValueError
     | .str s =>
       if s = sNew then
-        -- NOT FOUND: new element; re-resolve `found` from self and wrap a non-list in place
+        -- NOT FOUND: new element; re-resolve `found` from self.  The search writes nothing (fix C04-a): a list is
+        -- reported as the parent; a single value under a key is reported as the miss of `name[new()]` below the
+        -- parent dict (`_add` converts it); anything else (the root, a single element of a list) is `IndexError`
         match findD fuel root sp ps false (tokenize found) (.at sp) rl slash with
         | .error e => .error e
         | .ok (root, cur) =>
@@ -446,24 +448,20 @@ def findD (fuel : Nat) (root : Val) (sp : Pos) (ps entry : Bool) (toks : List St
           | Option.none => .error .Unsupported
           | some cpv =>
           match cur.nameIdx with
-          | Option.none =>
-            -- parent_node[None]
-            (match cpv with
-             | .dict .. => .error .KeyError
-             | _ => .error .TypeError)
+          | Option.none => .error .IndexError
           | some ni =>
             match cpv with
             | .dict _ kvs =>
               match lookup ni kvs with
-              | Option.none => .error .KeyError
               | some old =>
                 if isList old then
                   .ok (root, { parent := childRef root cur.parent (.key ni), nameIdx := Option.none, value := Val.none, found := cur.found, notFound := some (bracket sNew :: rest) })
                 else
-                  let (root', pr) := writeRef root cur.parent (.dict (match cpv with | .dict c _ => c | _ => .plain) (kvSet ni (.list .n0 [old]) kvs))
-                  .ok (root', { parent := childRef root' pr (.key ni), nameIdx := Option.none, value := Val.none, found := cur.found, notFound := some (bracket sNew :: rest) })
-            | .list .n0 xs =>
-              -- n0list["[i]"] is an xpath lookup on that list (n0list_.__getitem__)
+                  .ok (root, { parent := cur.parent, nameIdx := Option.none, value := Val.none, found := cur.found, notFound := some ((ni ++ bracket sNew) :: rest) })
+              | Option.none =>
+                .ok (root, { parent := cur.parent, nameIdx := Option.none, value := Val.none, found := cur.found, notFound := some ((ni ++ bracket sNew) :: rest) })
+            | .list _ xs =>
+              -- the element `[i]` of the list found (fix C03-c: `cur_value`, whatever the class of the enclosing list)
               (match (if startsWith ni ['['] && endsWith ni [']'] then pyInt ((ni.drop 1).dropLast) else Option.none) with
                | Option.none => .error .Unsupported
                | some i =>
@@ -473,8 +471,8 @@ def findD (fuel : Nat) (root : Val) (sp : Pos) (ps entry : Bool) (toks : List St
                    let old := xs.getD n Val.none
                    if isList old then
                      .ok (root, { parent := childRef root cur.parent (.idx n), nameIdx := Option.none, value := Val.none, found := cur.found, notFound := some (bracket sNew :: rest) })
-                   else .error .TypeError)   -- list.__setitem__(str, …)
-            | _ => .error .TypeError    -- list[str]
+                   else .error .IndexError)
+            | _ => .error .IndexError
       else if s = ['*'] then
         let (par', items) : PRef × List Val := match pv with
           | .list _ xs => (par, xs)
